@@ -73,16 +73,22 @@ def upd (pol : Policy) (s : St) (a : Act) : St :=
 def atReturn (s : St) : St :=
   s.deferred.foldl (fun s c => s.unlock c) { s with deferred := [] }
 
-inductive Out where
-  | ret (label : String) (s : St)
-  | brk (s : St)
-  | cont (s : St)
-  deriving DecidableEq, Repr
+/-- An interpretation of the acts over a state type σ: what an act does, what happens at `return l`. The lock
+discipline below and the trace semantics at the end of the file are two instances; the soundness theorem is proved
+once for all of them. -/
+structure Sem (σ : Type) where
+  upd : σ → Act → σ
+  atRet : String → σ → σ
+
+inductive Out (σ : Type) where
+  | ret (label : String) (s : σ)
+  | brk (s : σ)
+  | cont (s : σ)
 
 /-- every path of the skeleton, every number of loop iterations -/
-inductive Runs (pol : Policy) : Fx → St → Out → Prop where
-  | ret (l s) : Runs pol (.ret l) s (.ret l (atReturn s))
-  | act (a k s o) : Runs pol k (upd pol s a) o → Runs pol (.act a k) s o
+inductive Runs {σ : Type} (pol : Sem σ) : Fx → σ → Out σ → Prop where
+  | ret (l s) : Runs pol (.ret l) s (.ret l (pol.atRet l s))
+  | act (a k s o) : Runs pol k (pol.upd s a) o → Runs pol (.act a k) s o
   | branchT (c t e s o) : Runs pol t s o → Runs pol (.branch c t e) s o
   | branchE (c t e s o) : Runs pol e s o → Runs pol (.branch c t e) s o
   | brk (s) : Runs pol .brk s (.brk s)
@@ -93,36 +99,37 @@ inductive Runs (pol : Policy) : Fx → St → Out → Prop where
   | loopCont (b k s s' o) : Runs pol b s (.cont s') → Runs pol (.loop b k) s' o → Runs pol (.loop b k) s o
 
 /-- what a run may end in, as the analysis sees it (labels dropped) -/
-structure Ends where
-  rets : List St := []
-  brks : List St := []
-  conts : List St := []
-  deriving DecidableEq, Repr
+structure Ends (σ : Type) where
+  rets : List σ := []
+  brks : List σ := []
+  conts : List σ := []
 
-def Ends.union (a b : Ends) : Ends := ⟨a.rets ++ b.rets, a.brks ++ b.brks, a.conts ++ b.conts⟩
+variable {σ : Type}
 
-def Ends.has (e : Ends) : Out → Prop
+def Ends.union (a b : Ends σ) : Ends σ := ⟨a.rets ++ b.rets, a.brks ++ b.brks, a.conts ++ b.conts⟩
+
+def Ends.has (e : Ends σ) : Out σ → Prop
   | .ret _ s => s ∈ e.rets
   | .brk s => s ∈ e.brks
   | .cont s => s ∈ e.conts
 
-def Ends.sub (a b : Ends) : Prop := ∀ o, a.has o → b.has o
+def Ends.sub (a b : Ends σ) : Prop := ∀ o, a.has o → b.has o
 
-theorem Ends.sub_union_left (a b : Ends) : a.sub (a.union b) := by
+theorem Ends.sub_union_left (a b : Ends σ) : a.sub (a.union b) := by
   intro o h; cases o <;> simp only [Ends.has, Ends.union, List.mem_append] at * <;> exact Or.inl h
 
-theorem Ends.sub_union_right (a b : Ends) : b.sub (a.union b) := by
+theorem Ends.sub_union_right (a b : Ends σ) : b.sub (a.union b) := by
   intro o h; cases o <;> simp only [Ends.has, Ends.union, List.mem_append] at * <;> exact Or.inr h
 
 /-- run `f` from every state of a list, all must be accepted -/
-def collect (f : St → Option Ends) : List St → Option Ends
+def collect (f : σ → Option (Ends σ)) : List σ → Option (Ends σ)
   | [] => some {}
   | s :: r =>
     match f s, collect f r with
     | some a, some b => some (a.union b)
     | _, _ => none
 
-theorem collect_mem (f : St → Option Ends) : ∀ (l : List St) (e : Ends), collect f l = some e →
+theorem collect_mem (f : σ → Option (Ends σ)) : ∀ (l : List σ) (e : Ends σ), collect f l = some e →
     ∀ s ∈ l, ∃ e', f s = some e' ∧ e'.sub e := by
   intro l
   induction l with
@@ -145,9 +152,9 @@ theorem collect_mem (f : St → Option Ends) : ∀ (l : List St) (e : Ends), col
 
 /-- The abstract interpreter. A loop is accepted only when every `continue` (and the end of the body) comes back to the
 state the loop was entered with - the loop-head state is then an invariant and the number of iterations is irrelevant. -/
-def ends (pol : Policy) : Fx → St → Option Ends
-  | .ret _, s => some { rets := [atReturn s] }
-  | .act a k, s => ends pol k (upd pol s a)
+def ends [DecidableEq σ] (pol : Sem σ) : Fx → σ → Option (Ends σ)
+  | .ret l, s => some { rets := [pol.atRet l s] }
+  | .act a k, s => ends pol k (pol.upd s a)
   | .branch _ t e, s =>
     match ends pol t s, ends pol e s with
     | some a, some b => some (a.union b)
@@ -161,13 +168,13 @@ def ends (pol : Policy) : Fx → St → Option Ends
       if eb.conts.all (· == s) then
         -- after the loop: from the head state (the condition was false) and from every break state
         match collect (ends pol k) (s :: eb.brks) with
-        | some ek => some (({ rets := eb.rets } : Ends).union ek)
+        | some ek => some (({ rets := eb.rets } : Ends σ).union ek)
         | none => none
       else none
 
 /-- **Soundness of the analysis**: whatever `ends` answers covers every run - every resolution of every branch, every
 number of iterations of every loop. -/
-theorem ends_sound (pol : Policy) : ∀ p s o, Runs pol p s o → ∀ e, ends pol p s = some e → e.has o := by
+theorem ends_sound [DecidableEq σ] (pol : Sem σ) : ∀ p s o, Runs pol p s o → ∀ e, ends pol p s = some e → e.has o := by
   intro p s o h
   induction h with
   | ret l s => intro e he; simp only [ends, Option.some.injEq] at he; subst he; simp [Ends.has]
@@ -262,10 +269,13 @@ theorem ends_sound (pol : Policy) : ∀ p s o, Runs pol p s o → ∀ e, ends po
         exact ihl e he0
       · simp at he
 
+/-- the lock discipline as an interpretation of the acts -/
+def lockSem (pol : Policy) : Sem St := ⟨upd pol, fun _ s => atReturn s⟩
+
 /-- the verdict for a whole function body: every return path ends with no lock held and no broken discipline, and no
 `break` / `continue` escapes the body -/
 def balanced (pol : Policy) (p : Fx) : Bool :=
-  match ends pol p {} with
+  match ends (lockSem pol) p {} with
   | some e => e.rets.all (fun s => s.held.isEmpty && !s.bad) && e.brks.isEmpty && e.conts.isEmpty
   | none => false
 
@@ -274,14 +284,14 @@ iterate - the function returns with every lock released (deferred unlocks includ
 already holds, never releases one it does not hold, never lets go of the queue between storing a stanza and writing
 it, and never does under a lock what the policy forbids there. -/
 theorem balanced_sound (pol : Policy) (p : Fx) (h : balanced pol p = true) :
-    ∀ l s, Runs pol p {} (.ret l s) → s.held = [] ∧ s.bad = false := by
+    ∀ l s, Runs (lockSem pol) p {} (.ret l s) → s.held = [] ∧ s.bad = false := by
   intro l s hr
   unfold balanced at h
-  cases he : ends pol p {} with
+  cases he : ends (lockSem pol) p {} with
   | none => simp [he] at h
   | some e =>
     simp only [he, Bool.and_eq_true, List.all_eq_true] at h
-    have hm : s ∈ e.rets := by have := ends_sound pol p {} _ hr e he; simpa [Ends.has] using this
+    have hm : s ∈ e.rets := by have := ends_sound (lockSem pol) p {} _ hr e he; simpa [Ends.has] using this
     have := h.1.1 s hm
     simp only [List.isEmpty_iff, Bool.not_eq_true'] at this
     exact this
@@ -314,5 +324,62 @@ example : balanced polAny (.loop (.act (.lock "m") .cont) (.ret "")) = false := 
 example : balanced polAny (.loop (.act (.lock "m") (.branch "c" (.act (.unlock "m") .brk) (.act (.unlock "m") .cont))) (.ret "")) = true := by decide
 example : balanced (polQuiet "L" ["delete"]) (.act (.lock "L") (.act (.call "delete") (.act (.unlock "L") (.act (.chsend "result") (.ret ""))))) = true := by decide
 example : balanced (polQuiet "L" ["delete"]) (.act (.lock "L") (.act (.deferUnlock "L") (.act (.chsend "result") (.ret "")))) = false := by decide
+
+-- ---------------------------------------------------------------------------------------------------------------
+-- the trace semantics: the state is the list of acts performed so far, the return label is appended at `return`.
+-- For a body without loops (or whose loops perform no act) `ends` then enumerates EVERY complete trace of the body,
+-- and `traces_sound` says that each run's trace is in that list: a decidable predicate checked on the list holds for
+-- every run.
+
+/-- acts so far, oldest first; the final element of a complete trace is `.call ("return " ++ label)` -/
+def traceSem : Sem (List Act) := ⟨fun t a => t ++ [a], fun l t => t ++ [.call ("return " ++ l)]⟩
+
+/-- all complete traces of a body (none when a loop of the body performs acts - the trace semantics has no invariant
+for such a loop - or when `break` / `continue` escape) -/
+def traces (p : Fx) : Option (List (List Act)) :=
+  match ends traceSem p [] with
+  | some e => if e.brks.isEmpty && e.conts.isEmpty then some e.rets else none
+  | none => none
+
+theorem traces_sound (p : Fx) (ts : List (List Act)) (h : traces p = some ts) :
+    ∀ l t, Runs traceSem p [] (.ret l t) → t ∈ ts := by
+  intro l t hr
+  unfold traces at h
+  cases he : ends traceSem p [] with
+  | none => simp [he] at h
+  | some e =>
+    simp only [he] at h
+    split at h
+    · simp only [Option.some.injEq] at h; subst h
+      have := ends_sound traceSem p [] _ hr e he
+      simpa [Ends.has] using this
+    · simp at h
+
+/-- `allTraces p P`: every complete trace of `p` satisfies `P` (false when the traces cannot be enumerated) -/
+def allTraces (p : Fx) (P : List Act → Bool) : Bool :=
+  match traces p with
+  | some ts => ts.all P
+  | none => false
+
+theorem allTraces_sound (p : Fx) (P : List Act → Bool) (h : allTraces p P = true) :
+    ∀ l t, Runs traceSem p [] (.ret l t) → P t = true := by
+  intro l t hr
+  unfold allTraces at h
+  cases ht : traces p with
+  | none => simp [ht] at h
+  | some ts =>
+    simp only [ht] at h
+    exact List.all_eq_true.mp h t (traces_sound p ts ht l t hr)
+
+-- helpers for predicates over traces
+def isSpawn : Act → Bool | .spawn _ => true | _ => false
+def isCall (names : List String) : Act → Bool | .call w => names.contains w | _ => false
+/-- the label the trace returned with -/
+def retLabel (t : List Act) : String :=
+  match t.getLast? with
+  | some (.call w) => (w.drop 7).toString
+  | _ => ""
+/-- no act satisfying `q` occurs after the first act satisfying `p` -/
+def noneAfter (p q : Act → Bool) (t : List Act) : Bool := !((t.dropWhile (fun a => !p a)).drop 1).any q
 
 end XmppVerif.Fx
